@@ -242,6 +242,17 @@ let run (t : string list) : string =
        | Auth.SAuthOk _ -> Hashtbl.replace slots ("auth:" ^ conn) tok; Hashtbl.replace conns conn cs'
        | _ -> Hashtbl.replace conns conn cs');
       served_s "tcp" r
+  | ["authg_line"; conn; _desc; _expected; line] ->
+      (* the gate alone, exact result (needs hooks/C13-check-auth.diff on the Rust side) *)
+      let key = "g:" ^ conn in
+      let cs = try Hashtbl.find conns key with Not_found -> None in
+      let tok = model_token ("gate:" ^ conn) in
+      let ((r, cs'), s) = Auth.gate_tcp model_hmac (cfg ()) !st cs (btext line) (n_of_int !now) (b_of_s tok) in
+      st := s; Hashtbl.replace conns key cs';
+      (match r with
+       | Auth.GReject -> "AUTHFAIL"
+       | Auth.GAuthOk u -> Hashtbl.replace slots ("gate:" ^ conn) tok; "TOKEN " ^ hex_of_s (s_of_b u)
+       | Auth.GDispatch (text, u) -> "D " ^ hex_of_s (s_of_b text) ^ " " ^ hex_of_s (s_of_b u))
   | ["auth_tcpclose"; conn] -> Hashtbl.remove conns conn; "C"
   | ["auth_unix"; desc; expected; line] ->
       let (r, s) = Auth.serve_unix model_hmac (parse_for desc (text expected)) (cfg ()) !st (btext line) fresh_key in
@@ -254,4 +265,4 @@ let run (t : string list) : string =
       st := s; served_s "http" r
   | _ -> "UNKNOWN_PROBE"
 
-let init () = Registry.register "auth_" run
+let init () = Registry.register "auth_" run; Registry.register "authg_" run
